@@ -257,6 +257,12 @@ def decorations(P, attr_ops=False):
         Q = copy.deepcopy(P)
         Q["nodes"][j]["aoi"] = True
         yield Q
+        # allow_other_inputs together with a REQUIRED extra trailing input (one decoration step): hosts of the same operator
+        # have fewer inputs than the pattern lists, and "other inputs allowed" must not excuse a missing required one
+        Q = copy.deepcopy(P)
+        Q["nodes"][j]["in"].append(V(fresh))
+        Q["nodes"][j]["aoi"] = True
+        yield Q
         if len(n["in"]) == 2:
             Q = copy.deepcopy(P)
             Q["nodes"][j]["in"].pop()
